@@ -270,12 +270,12 @@ func c12Cover(c *vkit.Check) func(cs vshCase, r *vshRun) {
 			c.Outcome(fmt.Sprintf("trs=%d|sending=%d|app=%v", len(d.Trs), sending, app))
 		}
 		if len(cs.Hist) == 3 {
-			c.Sample(map[string]any{"case": cs.String(), "status": r.Status, "last_offer": c06LastSummaryOf(r)})
+			c.Sample(map[string]any{"case": cs.String(), "status": r.Status, "last_offer": c12LastSummary(r)})
 		}
 	}
 }
 
-func c06LastSummaryOf(r *vshRun) string {
+func c12LastSummary(r *vshRun) string {
 	for i := len(r.Descs) - 1; i >= 0; i-- {
 		if r.Descs[i].Err == "" {
 			return r.Descs[i].Side + " " + r.Descs[i].Type + " " + vshSecSummary(r.Descs[i].Scan)
@@ -360,6 +360,11 @@ func TestVerifC12(t *testing.T) {
 		levels["unified+flexfec/unmerged"] = lv
 		if !done {
 			c.NotExhaustive("budget reached in the unmerged tree")
+		}
+		lv, done = exp.bfs(vshCfg{Sem: "unified"}, alpha, 5, true)
+		levels["unified/depth-5"] = lv
+		if !done {
+			c.NotExhaustive("budget reached in the depth-5 BFS")
 		}
 		exp2 := &vshExplorer{tb: t, c: c, oracle: c12Oracle, cover: c12Cover(c), probeEvery: false, stop: exp.stop}
 		lv, done = exp2.bfs(vshCfg{Sem: "unified"}, alpha, 4, true)
